@@ -390,6 +390,8 @@ func newTree(parent Tree, s *Segment) (Tree, error) {
 		if _, exists := parentBindSet[bind]; exists {
 			return nil, errors.Errorf("duplicated bind parameter %q in position %d", bind, s.Pos.Offset)
 		}
+		// A bind parameter must not be reused within the segment either.
+		parentBindSet[bind] = struct{}{}
 	}
 
 	return &regexTree{
